@@ -11,7 +11,7 @@ sys.path.insert(0, ROOT)
 
 ALL = ['C%02d' % i for i in range(1, 21)]
 # properties whose check is finished and verified by the orchestrator (others stay pending)
-READY = ['C01', 'C03', 'C04', 'C05', 'C06', 'C07', 'C08', 'C09', 'C10', 'C11', 'C12', 'C13', 'C14', 'C15', 'C16', 'C17', 'C18', 'C19', 'C20']
+READY = ALL
 PENDING_REASON = 'check not built yet in this round (model/theorems/correspondence in progress); not claimed'
 
 
